@@ -1,11 +1,43 @@
-// TRUSTED stand-in (A1, A8): the data model as the interpreter sees it.  `gd()` models
-// `datamodel.global().lock().unwrap()`: exclusive access to the session's GlobalData.
+// TRUSTED stand-in (A1, A3, A8): the data model as the interpreter sees it.
+// `gd()` models `datamodel.global().lock().unwrap()`: exclusive access to the session's GlobalData.
+// `log()` is a ghost record of the executable-content blocks handed to the data model, in order.
+
+/// the data-model value type: opaque in this unit (values are only passed through)
+#[verifier::external_body]
+pub struct Data {
+    _p: (),
+}
+
+/// what executable content / the I/O processors may NOT change (A3, A8): the interpreter's own bookkeeping
+pub open spec fn frame_core(g0: GlobalData, g1: GlobalData) -> bool {
+    &&& g1.configuration == g0.configuration
+    &&& g1.statesToInvoke == g0.statesToInvoke
+    &&& g1.historyValue == g0.historyValue
+    &&& g1.running == g0.running
+    &&& g1.caller_invoke_id == g0.caller_invoke_id
+    &&& g1.parent_session_id == g0.parent_session_id
+    &&& g1.session_id == g0.session_id
+    &&& g1.final_configuration == g0.final_configuration
+    &&& g0.internalQueue.data@.is_prefix_of(g1.internalQueue.data@)
+}
+
 pub trait Datamodel {
     /// ghost view of the session's global data
     spec fn gview(&self) -> GlobalData;
 
+    /// ghost: ids of the executable-content blocks executed so far
+    spec fn log(&self) -> Seq<u32>;
+
     fn gd(&mut self) -> (r: &mut GlobalData)
         ensures
             *r == old(self).gview(),
-            final(self).gview() == *final(r);
+            final(self).gview() == *final(r),
+            final(self).log() == old(self).log();
+
+    /// runs one block of executable content (oracle): may raise events and change the data store only
+    fn executeContent(&mut self, fsm: &Fsm, contentId: ExecutableContentId) -> (r: bool)
+        ensures
+            final(self).log() == old(self).log().push(contentId),
+            frame_core(old(self).gview(), final(self).gview()),
+            final(self).gview().child_sessions == old(self).gview().child_sessions;
 }
